@@ -466,6 +466,13 @@ class ExprMixin:
             if kc in base:
                 return base[kc]
             raise Unsupported('lookup of %r in concrete dict' % (idx,))
+        if isinstance(base, Obj) and base.kind == 'seq' and (isinstance(idx, str) or is_str(idx)):
+            # a tuple / list indexed with a string: Python raises TypeError
+            if 'TypeError' in self.catching(fr):
+                self.register_exc(st, z3.BoolVal(True), 'TypeError')
+                return None
+            self.emit(st, 'defined.index.%s' % what, False, 'sequence indexed with a string')
+            return self.fresh('oob', 'ref')
         if isinstance(base, Obj) and base.kind in ('arr', 'seq'):
             idxs = list(idx) if isinstance(idx, tuple) else [idx]
             if len(idxs) != base.ndim:
@@ -745,6 +752,11 @@ class ExprMixin:
                 r = to_str(a) == to_str(b)
                 c = concrete(r)
                 return c if isinstance(c, bool) else r
+            other = b if (isinstance(a, str) or is_str(a)) else a
+            if isinstance(other, Obj) and other.kind is None and not other.cls:
+                # an object of unknown dynamic type compared with a string: undetermined (it may be a str), not False
+                f = z3.Function('ref_eq_str', Ref, z3.StringSort(), z3.BoolSort())
+                return f(other.ref, to_str(a if other is b else b))
             return False
         if a is None or b is None:
             return False
